@@ -104,6 +104,13 @@ func (dv *Router) Start() (err error) {
 		return err
 	}
 
+	// Add self to the RIB. This is done before the handlers are attached, so
+	// that no advertisement is ever served without the router's own entry, and
+	// with the mutex held, like every other access to the RIB.
+	dv.mutex.Lock()
+	dv.rib.Set(dv.config.RouterName(), dv.config.RouterName(), 0)
+	dv.mutex.Unlock()
+
 	// Register interest handlers
 	err = dv.register()
 	if err != nil {
@@ -113,9 +120,6 @@ func (dv *Router) Start() (err error) {
 	// Start sync groups
 	dv.pfxSvs.Start()
 	defer dv.pfxSvs.Stop()
-
-	// Add self to the RIB
-	dv.rib.Set(dv.config.RouterName(), dv.config.RouterName(), 0)
 
 	for {
 		select {
